@@ -202,3 +202,43 @@ func init() {
 		os.Exit(0)
 	}
 }
+
+func init() {
+	if len(os.Args) > 1 && os.Args[1] == "survey4" {
+		p, err := loadProg(envOr("CEDAR_REPO", "/repo"), "amd64")
+		if err != nil {
+			fmt.Println(err)
+			os.Exit(2)
+		}
+		oa := p.order()
+		for _, l := range oa.loops {
+			effs, early := oa.effects(l)
+			worst := 0
+			var parts []string
+			for _, e := range effs {
+				s := e.Sens
+				if early && s == 0 {
+					s = 2
+				}
+				if s > worst {
+					worst = s
+				}
+				parts = append(parts, fmt.Sprintf("%s[%s]@%s/%d", e.Kind, e.Detail, p.pos(e.Pos), e.Sens))
+			}
+			fmt.Printf("%d early=%v %s\n     %v\n", worst, early, oa.describeLoop(l), parts)
+		}
+		var its []string
+		for f := range oa.unorderedIter {
+			its = append(its, fnQual(f))
+		}
+		sort.Strings(its)
+		fmt.Println("unordered iterators:", its)
+		its = nil
+		for f := range oa.retUnordered {
+			its = append(its, fnQual(f))
+		}
+		sort.Strings(its)
+		fmt.Println("returns unordered:", its)
+		os.Exit(0)
+	}
+}
